@@ -1442,3 +1442,4 @@ def entry_or_default(ex, e):
 
 from .natives_str import *      # noqa: E402,F401  (strings, formatting, numbers)
 from .natives_sys import *      # noqa: E402,F401  (mutex, channels, threads, timers, io)
+from . import natives_xml       # noqa: E402,F401  (quick-xml event source for the SCXML reader)
